@@ -51,6 +51,8 @@ def main(ck):
         samples = int(os.environ.get('VERIF_INPUT_SAMPLES') or (1 if ck.quick() else 2))
         cases = []
         for c in c19.make_cases(ck, samples):
+            if ck.quick() and ck.rng.random() > 0.45:
+                continue   # quick tier: a seeded sample of the value classes (thorough: all of them)
             c['forms'] = [f for f in ic.FORMS if not (f == 'csv' and c['type'] == 'String' and c['text'] == '')]
             cases.append(c)
         for kind in ig.STRUCT_KINDS:
